@@ -3,6 +3,7 @@ mod c01;
 mod c05;
 mod c06;
 mod c07;
+mod c08;
 mod c09;
 mod c10;
 mod c11;
@@ -23,6 +24,7 @@ fn main() {
         "c05" => c05::run(&a),
         "c06" => c06::run(&a),
         "c07" => c07::run(&a),
+        "c08" => c08::run(&a),
         "c09" => c09::run(&a),
         "c10" => c10::run(&a),
         "c11" => c11::run(&a),
